@@ -39,6 +39,9 @@ CHECKS = {
  "C13": dict(level="exploration", design="§4 C13", technique="exhaustive enumeration of all strings (and pairs/triples) up to a length bound over a 13-symbol alphabet, both OS types, against path/filepath (Linux) and a mechanically retargeted copy of the toolchain's Windows path/filepath (validated on the toolchain's own test tables)",
    text="Clean, Split, Dir, Base, IsAbs, FromSlash, ToSlash, VolumeName, Join, Rel, Abs (Linux), Match and PathIterator (Next/Part/Left/Right/ReplacePart) on every string <= 5 (quick) / <= 6 (thorough), pairs <= 3 / 4, Match patterns <= 4 / 5 x names <= 3, plus a dictionary of volume-shaped prefixes; equality of results and of error-ness; a panic is a violation.",
    note="Built with -tags avfs_setostype. Abs for Windows not decided (Win32 API). Rel on argument pairs for which Go's own Windows Rel does not terminate is skipped (reference defect). Inputs longer than the bound are not covered (the fuzzing clause is sampling)."),
+ "C10": dict(level="model_checking", design="§4 C10", technique="explicit-state BFS over histories whose alphabet is every path string up to a length over {a,f,secret,top,b,.,..} x every path-taking call, on the real BasePathFS in lock-step with a standalone reference file system holding the base directory's content; snapshot of everything outside the base directory around every call",
+   text="Level 1: all strings of <= 3 (quick) / <= 4 (thorough) segments, absolute and relative, three spellings, x 23 calls (incl. handle and Chdir/Getwd compounds) plus a 30-string core squared for Rename/Link/Symlink; level 2 (3 in thorough): relative and dot-dot strings after a first call. Oracle: nothing outside the base directory changes or is read, outcome and tree of the base directory equal those of the standalone reference, every returned or error-embedded path names the same virtual location as the reference's and never carries the base prefix.",
+   note="Paths are compared after normalising both sides to the absolute cleaned virtual form (spelling-only differences are counted, not judged). OrefaFS's own inability to address its root is informational (the reference is wrong there, not the wrapper)."),
  "C05": dict(level="model_checking", design="§4 C05", technique="explicit-state BFS over call histories incl. invalid/aliased operands; injected node-graph invariant checker + public-API walk + frame conditions after every call",
    text="Every history of <= 2 (quick) / <= 3 (thorough) calls from a ~430-call alphabet that includes root, empty, relative, ancestor/descendant and identical operands, on MemFS and OrefaFS (Linux- and Windows-typed), with structural invariants (single parent per directory, stored link counters = directory entries, OrefaFS index = reachable paths), ReadDir/Lstat agreement, Nlink/SameFile agreement and frame conditions checked after every call.",
    note="Trusts the injected read-only checker (hooks/*/verif_hooks.go) and the generous definition of 'entries a call names' (operands, what they resolve to, their subtrees and hard-link classes)."),
